@@ -105,6 +105,7 @@ var ScalarVias = []string{
 	"random-high", "random-retry",
 	"add-self", "sub-self", "mul-self", "set-self", "cselect-self", "pow-self", "add-to-zero", "add-to-one", "sub-equal", "decode-rejected-range",
 	"unmarshal-rejected-range", "decodehex-rejected-range", "lessorequal-nil-recovered", "random-fault-recovered", "copy-then-change-copy", "set-then-change-source", "copy-from-then-change-source",
+	"arg-of-panicking-call", "argument-of-calls", "random-skip-then-fault-recovered",
 }
 
 // PlanScalarMove draws a transition through the given mutator.
@@ -159,7 +160,7 @@ func PlanScalarMove(via string, r *gen.Rng) ScalarMove {
 		"setuint64": true, "zero": true, "one": true, "minusone": true, "random": true, "random-high": true, "random-retry": true, "set-nil": true, "mul-nil": true, "pow-nil": true,
 		"decode-rejected": true, "square": true, "add-self": true, "sub-self": true, "mul-self": true, "set-self": true, "cselect-self": true, "pow-self": true, "add-to-zero": true,
 		"add-to-one": true, "sub-equal": true, "decode-rejected-range": true, "unmarshal-rejected-range": true, "decodehex-rejected-range": true, "lessorequal-nil-recovered": true,
-		"random-fault-recovered": true, "copy-then-change-copy": true, "set-then-change-source": true, "copy-from-then-change-source": true}
+		"random-fault-recovered": true, "copy-then-change-copy": true, "set-then-change-source": true, "copy-from-then-change-source": true, "arg-of-panicking-call": true, "argument-of-calls": true, "random-skip-then-fault-recovered": true}
 
 	if free[via] {
 		switch r.Intn(6) {
@@ -196,11 +197,11 @@ func PlanScalarMove(via string, r *gen.Rng) ScalarMove {
 		to = new(big.Int)
 	case "add-to-one":
 		to = big.NewInt(1)
-	case "set-self", "cselect-self", "lessorequal-nil-recovered", "random-fault-recovered", "copy-then-change-copy", "set-then-change-source", "copy-from-then-change-source", "decode-rejected":
+	case "set-self", "cselect-self", "lessorequal-nil-recovered", "random-fault-recovered", "copy-then-change-copy", "set-then-change-source", "copy-from-then-change-source", "decode-rejected", "arg-of-panicking-call", "argument-of-calls":
 		to = from
 	case "pow-self":
 		to = new(big.Int).Exp(from, from, n)
-	case "decode-rejected-range", "unmarshal-rejected-range", "decodehex-rejected-range":
+	case "decode-rejected-range", "unmarshal-rejected-range", "decodehex-rejected-range", "random-skip-then-fault-recovered":
 		havoc = true
 	}
 
@@ -214,6 +215,14 @@ func PlanScalarMove(via string, r *gen.Rng) ScalarMove {
 
 	mv.From, mv.To = hx(from), hx(to)
 	mv.Aux = hx(gen.Draw(r, n).X)
+
+	if havoc && via == "random-skip-then-fault-recovered" {
+		// the source delivers a block that must be skipped (0 or n, by Cond), then Cond%32 more bytes, then fails
+		mv.Cond = uint64(r.Intn(64))
+		mv.To = Havoc
+
+		return mv
+	}
 
 	if havoc {
 		// Aux is the rejected input: an integer in [n, 2^256)
@@ -360,6 +369,39 @@ func ApplyScalarMove(s *secp256k1.Scalar, mv ScalarMove) {
 	case "random-fault-recovered":
 		old := rand.Reader
 		rand.Reader = bytes.NewReader(oracle.Bytes32(aux)[:int(mv.Cond%32)])
+
+		func() {
+			defer func() { rand.Reader = old }()
+
+			_, _ = Call(func() { s.Random() })
+		}()
+	case "arg-of-panicking-call":
+		// the object is the ARGUMENT of calls that panic on a nil receiver and are recovered
+		_, _ = Call(func() { NilScal.Subtract(s) })
+		_, _ = Call(func() { NilScal.Add(s) })
+		_, _ = Call(func() { NilScal.Multiply(s) })
+		_, _ = Call(func() { NilScal.Set(s) })
+		_, _ = Call(func() { _ = NilScal.Equal(s) })
+		_, _ = Call(func() { _ = NilScal.LessOrEqual(s) })
+	case "argument-of-calls":
+		// the object is the (read-only) argument of every call that takes a scalar
+		o := Scal(aux)
+		_ = s.LessOrEqual(o)
+		_ = o.Equal(s)
+		o.Add(s).Subtract(s).Multiply(s)
+		_ = o.CSelect(mv.Cond|1, s, s)
+		o.Set(s).Pow(secp256k1.NewScalar().SetUInt64(3))
+		secp256k1.Base().Multiply(s)
+		_, _ = o.Encode(), o.Bits()
+		_ = Scal(aux).LessOrEqual(s) // last: the object as the ARGUMENT of a comparison
+	case "random-skip-then-fault-recovered":
+		skip := make([]byte, 32)
+		if mv.Cond%2 == 1 {
+			skip = oracle.Bytes32(n)
+		}
+
+		old := rand.Reader
+		rand.Reader = bytes.NewReader(append(skip, oracle.Bytes32(aux)[:int(mv.Cond/2)%32]...))
 
 		func() {
 			defer func() { rand.Reader = old }()
